@@ -15,26 +15,34 @@ import specs, vlib
 from specs import graph_property
 from vlib import Infra, log
 
-CONFIRM_RESET = dict(name="Reset", form="none", wsender="none", sender="none", ext="none", obj="none", sig="none", res="ok")
+CONFIRM_RESET = dict(name="Reset", form="none", wsender="none", sender="none", oracle="none", ext="none", obj="none", sig="none", res="ok")
 
 CLASSES = ["good", "other-object", "other-kind", "other-gravity-id", "other-chain", "other-prefix", "other-key",
            "malleated", "v01", "trailing-byte", "garbage"]
 
 CONFIRM_FORMULAS = dict(
-    invariants=["C12_ConfirmsAreSigned", "C12_OnePerOracleAndObject"],
-    properties=["C12_KeptOnce", "C12_OnlyBridgerOfThatOracle", "C12_NoCrossUse", "C12_ConfirmTouchesOnlyConfirms"],
-    p_properties=["P_C12_KeptOnce", "P_C12_OnlyBridgerOfThatOracle", "P_C12_NoCrossUse", "P_C12_ConfirmTouchesOnlyConfirms"])
+    invariants=["C12_ConfirmsAreSigned", "C12_OnePerOracleAndObject", "C12_BridgerIsWellDefined"],
+    properties=["C12_KeptOnce", "C12_OnlyBridgerOfThatOracle", "C12_BridgerReplacedOnlyByEdit", "C12_NoCrossUse",
+                "C12_ConfirmTouchesOnlyConfirms"],
+    p_properties=["P_C12_KeptOnce", "P_C12_OnlyBridgerOfThatOracle", "P_C12_BridgerReplacedOnlyByEdit", "P_C12_NoCrossUse",
+                  "P_C12_ConfirmTouchesOnlyConfirms"])
 
 ORACLES, SENDERS, EXTS = ["o1", "o2"], ["b1", "b2", "x"], ["e1", "e2", "eu"]
 OVERRIDES = {"BridgerOf": "BridgerStd", "ExtOf": "ExtStd"}
 
 # objects: os<n> oracle set request n (created by the real EndBlocker in the set-up), tb<n> outgoing batch n
 # (MsgSendToExternal + MsgRequestBatch), bc<n> outgoing bridge call n (MsgBridgeCall); Late = created by operation
+# MaxEdits = number of bridger replacements (EditBridger) after which states are no longer expanded.  In the wide
+# families (MaxEdits=0) every EditBridger is executed from every state but the registries it leads to are not expanded;
+# the "<tier>-edit" families have fewer objects and expand the registries reachable by 1-2 replacements (replaced bridger,
+# new bridger, a replaced bridger re-bound to the other oracle, a replacement undone) under all confirmations.
 SHAPES = {
-    "dev":      dict(Object=["os1", "bc1"], Late=[], MaxConfirms=1),
-    "quick":    dict(Object=["os1", "tb1", "bc1", "bc2"], Late=["bc2"], MaxConfirms=2),
-    "thorough": dict(Object=["os1", "os2", "tb1", "tb2", "bc1", "bc2"], Late=["tb2", "bc2"], MaxConfirms=2),
-    "mc-deep":  dict(Object=["os1", "os2", "tb1", "tb2", "bc1", "bc2"], Late=["tb2", "bc2"], MaxConfirms=3),
+    "dev":           dict(Object=["os1", "bc1"], Late=[], MaxConfirms=1, MaxEdits=1),
+    "quick":         dict(Object=["os1", "tb1", "bc1", "bc2"], Late=["bc2"], MaxConfirms=2, MaxEdits=0),
+    "quick-edit":    dict(Object=["os1", "tb1"], Late=[], MaxConfirms=2, MaxEdits=2),
+    "thorough":      dict(Object=["os1", "os2", "tb1", "tb2", "bc1", "bc2"], Late=["tb2", "bc2"], MaxConfirms=2, MaxEdits=0),
+    "thorough-edit": dict(Object=["os1", "tb1", "bc1", "bc2"], Late=["bc2"], MaxConfirms=2, MaxEdits=2),
+    "mc-deep":       dict(Object=["os1", "os2", "tb1", "tb2", "bc1", "bc2"], Late=["tb2", "bc2"], MaxConfirms=3, MaxEdits=0),
 }
 CHAINS = {"dev": ["eth"], "quick": ["eth", "tron"], "thorough": ["eth", "tron", "bsc"]}
 
@@ -42,7 +50,7 @@ CHAINS = {"dev": ["eth"], "quick": ["eth", "tron"], "thorough": ["eth", "tron", 
 def tla_consts(shape, verifying):
     s = SHAPES[shape]
     return dict(Oracle=ORACLES, Sender=SENDERS, Ext=EXTS, Object=s["Object"], Late=s["Late"], SigClass=CLASSES,
-                Verifying=sorted(verifying), MaxConfirms=s["MaxConfirms"])
+                Verifying=sorted(verifying), MaxConfirms=s["MaxConfirms"], MaxEdits=s["MaxEdits"])
 
 
 def harness_consts(chain, shape, verifying):
@@ -60,10 +68,12 @@ ASSUMPTIONS = [
     "go-ethereum Ecrecover over keccak256(prefix || checkpoint) compared with the address of the key, as FxBridgeLogic.verifySig) over a "
     "checkpoint recomputed by the harness's own ABI encoder; a malleated twin (r, n-s, flipped v) and v in {0,1} are valid signatures of "
     "the registered key over the exact checkpoint and the property allows accepting them; it forbids keeping a second confirmation",
-    "oracle registry fixed by the set-up (2 oracles bonded through MsgBondedOracle, external address = address of a secp256k1 key the "
-    "harness holds); oracle set requests created by the application's real EndBlocker, the FX bridge token by an observed "
-    "MsgBridgeTokenClaim, batches by MsgSendToExternal+MsgRequestBatch, bridge calls by MsgBridgeCall; params via MsgUpdateParams (gov authority)",
-    "the projection reads the crosschain store prefixes 0x12 0x15 0x16 0x20 0x22 0x40 0x45 0x48 raw; `valid` is recomputed per stored "
+    "oracle registry built by the set-up (2 oracles bonded through MsgBondedOracle, external address = address of a secp256k1 key the "
+    "harness holds) and changed by EditBridger only (bridger replaced by an unbound account, at most MaxEdits times per run; "
+    "MsgEditBridger cannot pass ValidateBasic on this tree, its handler is called directly and atomically with the oracle as signer); "
+    "both stores that name an oracle's bridger are projected raw (Oracle record 0x12, bridger index 0x14); oracle set requests created by the application's real EndBlocker, the FX bridge token by an observed "
+    "MsgBridgeTokenClaim, batches by MsgSendToExternal+MsgRequestBatch (requested by an oracle account), bridge calls by MsgBridgeCall; params via MsgUpdateParams (gov authority)",
+    "the projection reads the crosschain store prefixes 0x12 0x14 0x15 0x16 0x20 0x22 0x40 0x45 0x48 raw; `valid` is recomputed per stored "
     "confirmation with the harness's own encoder and verifier, never with the keeper's",
     "number of stored confirmations bounded (MaxConfirms) by an action constraint; the Tron contract's Solidity source is not in the "
     "repository: for tron the layout of FxBridgeLogic.sol is assumed with TVM address words (20 bytes, 0x41 prefix dropped) and the "
@@ -194,18 +204,24 @@ def confirm(work, args):
         verifying, classes = classes_prestep(work, binary, tier)
         shape = tier
         mc_cfgs = [dict(name="mc", tiers=[tier], consts=tla_consts(shape, verifying), overrides=OVERRIDES)]
+        if tier != "dev":
+            mc_cfgs.append(dict(name="mc-edit", tiers=[tier], consts=tla_consts(tier + "-edit", verifying), overrides=OVERRIDES))
         if tier == "thorough":
             mc_cfgs.append(dict(name="mc-deep", tiers=[tier], consts=tla_consts("mc-deep", verifying), overrides=OVERRIDES, timeout=1200))
         # odd shard counts: graph.go assigns states to shards by FNV-1a % shards, whose lowest bit is only a parity
-        def gen(name, chains, rej_sample, shards):
+        def gen(name, chains, rej_sample, shards, shape=shape):
             return dict(name=name, tiers=[tier], consts=tla_consts(shape, verifying), overrides=OVERRIDES,
                         harness=[harness_consts(c, shape, verifying) for c in chains], shards=shards, rej_sample=rej_sample,
                         may_never_succeed=("Create",) if not SHAPES[shape]["Late"] else ())
         if tier == "thorough":
-            # every operation in every state on eth; on the other chains every accepted edge and a third of the rejected ones
-            gen_cfgs = [gen("gen-thorough", CHAINS[tier][:1], 0, 15), gen("gen-thorough-sampled", CHAINS[tier][1:], 800, 15)]
+            # every operation in every state on eth; on the other chains every accepted edge and a third of the rejected ones;
+            # bridger replacements (2 deep): every accepted edge and an eighth of the rejected ones on eth and tron
+            gen_cfgs = [gen("gen-thorough", CHAINS[tier][:1], 0, 15), gen("gen-thorough-sampled", CHAINS[tier][1:], 800, 15),
+                        gen("gen-thorough-edit", CHAINS[tier][:2], 200, 15, shape="thorough-edit")]
+        elif tier == "quick":
+            gen_cfgs = [gen("gen-quick", CHAINS[tier], 150, 13), gen("gen-quick-edit", CHAINS[tier], 150, 13, shape="quick-edit")]
         else:
-            gen_cfgs = [gen("gen-" + tier, CHAINS[tier], dict(dev=40, quick=150)[tier], 13)]
+            gen_cfgs = [gen("gen-" + tier, CHAINS[tier], 40, 13)]
         rc1 = graph_property(work, args, pid="C12", module="Confirm", mcmodule="ConfirmMC", pkg="confirm", formulas=CONFIRM_FORMULAS,
                              mc_cfgs=mc_cfgs, gen_cfgs=gen_cfgs, reset_op=CONFIRM_RESET, level_note="", design_ref="5/C12",
                              assumptions=ASSUMPTIONS)
@@ -239,11 +255,12 @@ specs.MANIFEST.update({
                   "trailing byte, garbage) that the harness realises with real signatures; every generated transition is executed on the real "
                   "keeper (both message forms, every sender/external-address/object/class combination) and the formulas (stored confirmations "
                   "recover to the registered key over the checkpoint recomputed by an independent encoder; one slot per oracle and object, kept "
-                  "once; only the oracle's bridger as transaction signer; no cross use) are evaluated by TLC on the recorded real behaviours. "
+                  "once; only the oracle's bridger as transaction signer, where the bridger is replaceable by EditBridger and must be the account "
+                  "named by the oracle record and bound in the bridger index; no cross use) are evaluated by TLC on the recorded real behaviours. "
                   "AbiCheckpoint.tla defines abi.encode (head/tail layout as 32-byte words) and the oracle-set, batch and bridge-call digests "
                   "from FxBridgeLogic.sol; TLC evaluates them on a bounded family and the harness compares keccak256 of the words with "
                   "OracleSet/OutgoingTxBatch/OutgoingBridgeCall.GetCheckpoint and x/tron/types' encoder, plus injectivity.",
-             note="bounded: 2 oracles, <=2 objects per kind, <=2 stored confirmations per run; digest equality shown for the bounded family "
+             note="bounded: 2 oracles, <=2 objects per kind, <=2 stored confirmations and <=2 bridger replacements per run; digest equality shown for the bounded family "
                   "(lists 0..3, byte strings 0,1,31,32,33(,64,65), boundary integers), not all sizes; Tron contract source not in the repository "
                   "(structural comparison); MsgConfirm exercised in memory; trusted: TLC, go-ethereum secp256k1 recovery, keccak, the projection",
              ref="5 (C12)"),
